@@ -222,8 +222,21 @@ class FormatMachine(MachineBase):
                             {"why": why, "bytes": len(after or b"")})
         if after is None:
             raise Violation(self.ROUNDTRIP_PROP, "%s.dump_wrote_nothing" % self.ROUNDTRIP_PROP, "no-file/%s" % self.FORMAT, {})
-        text = after.decode("utf-8")
+        try:
+            text = after.decode("utf-8")
+        except UnicodeDecodeError:
+            raise Violation(self.ROUNDTRIP_PROP, "%s.dump_writes_what_was_asked" % self.ROUNDTRIP_PROP, "dump-returned-but-file-is-not-text/%s" % self.FORMAT,
+                            {"bytes": len(after)})
         CTX.dump_hashes.append(_sha(text))
+        if self.watching("C08") and verdict == VALID and "main_variant" not in op:
+            # the bytes at the destination are a function of the content alone: equal to what dumps() returns now,
+            # whatever was at that path before
+            try:
+                again = s.obj.dumps()
+            except Exception:
+                again = None
+            if again is not None and again != text:
+                raise Violation("C08", "C08.file_bytes_equal_dumps", "file-differs-from-dumps/%s" % self.FORMAT, {"diff": _text_diff(again, text)})
         if verdict == VALID:
             self.count("C06", ["valid-written", self.FORMAT, self.abstract(s)])
         self.check_canonical(text)
@@ -701,6 +714,32 @@ class FormatMachine(MachineBase):
                 raised = e
             done += 1
             self.count("C07", [self.FORMAT, c["key"], c["must"], raised is not None, via])
+            if c["must"] == "reject" and raised is not None and n % 4 == 0:
+                # the rejection does not wear off: the SAME object refuses the same document a second time, and an object
+                # that has successfully loaded another (valid) document before refuses it as well
+                for variant in ("again", "primed"):
+                    obj = self.new_obj()
+                    try:
+                        if variant == "again":
+                            try:
+                                obj.load(scratch)
+                            except Exception:
+                                pass
+                        else:
+                            prime = self.prime_document()
+                            if prime is None:
+                                continue
+                            self.fs.put(scratch + ".prime", prime)
+                            obj.load(scratch + ".prime")
+                        obj.load(scratch)
+                        second = None
+                    except Exception as e2:
+                        if isinstance(e2, HarnessError):
+                            raise
+                        second = e2
+                    if second is None:
+                        raise Violation("C07", "C07.bad_document_rejected", "bad-document-loaded-%s/%s/%s" % (variant, self.FORMAT, c["key"]),
+                                        {"corruption": c["key"], "history": variant, "only": [n]})
             if c["must"] == "reject" and raised is None:
                 raise Violation("C07", "C07.bad_document_rejected", "bad-document-loaded/%s/%s" % (self.FORMAT, c["key"]),
                                 {"corruption": c["key"], "via": via, "only": [n]})
@@ -736,6 +775,11 @@ class FormatMachine(MachineBase):
 
     def model_from_observation(self, obs):
         return copy.deepcopy(obs)
+
+    def prime_document(self):
+        """a small VALID current-format document of this format whose ids do not clash with generated content"""
+        from ..prime import PRIME
+        return PRIME.get(self.FORMAT)
 
     # ---- C08: equal content => equal bytes ---------------------------------------------
     def op_cmp_slots(self, op):
